@@ -52,7 +52,7 @@ type c15Step struct {
 }
 
 type c15Case struct {
-	Kind      string `json:"kind"` // deadline | mixed | stall | leak | closers
+	Kind      string `json:"kind"` // deadline | mixed | stall | leak | closers | api
 	Seed      int64  `json:"seed"`
 	UDP       bool   `json:"udp"`
 	Multiplex int    `json:"multiplex"`
@@ -1003,11 +1003,17 @@ func c15RunOnce(c *core.Ctx, k c15Case) *c15Out {
 		return c15RunLeak(c, k)
 	case "closers":
 		return c15RunClosers(c, k)
+	case "api":
+		return c15RunAPI(c, k)
 	}
 	return &c15Out{setupErr: fmt.Errorf("unknown kind %q", k.Kind)}
 }
 
-var c15ConfirmMu sync.Mutex // re-runs of suspicious cases happen one at a time
+var (
+	c15ConfirmMu sync.Mutex // re-runs of suspicious cases happen one at a time
+	c15Reported  = map[string]bool{}
+	c15Confirms  int
+)
 
 // c15Check runs one case; a verdict is reported only if it reproduces in 2 of 3 re-runs.
 func c15Check(c *core.Ctx, k c15Case) {
@@ -1034,6 +1040,23 @@ func c15Check(c *core.Ctx, k c15Case) {
 	}
 	c15ConfirmMu.Lock()
 	defer c15ConfirmMu.Unlock()
+	// keys already reported need no second confirmation; and a tree that hangs everywhere must not
+	// spend the whole budget on re-runs
+	fresh := false
+	for _, f := range o.finds {
+		if !c15Reported[f.key] {
+			fresh = true
+		}
+	}
+	if !fresh {
+		return
+	}
+	if c15Confirms >= 8 {
+		c.Note("C15: further candidates not re-run (8 cases already confirmed): %s; case %s", o.finds[0].key, key)
+		c.Res.Discarded++
+		return
+	}
+	c15Confirms++
 	again := map[string]int{}
 	for i := 0; i < 3; i++ {
 		o2 := c15RunOnce(c, k)
@@ -1051,6 +1074,7 @@ func c15Check(c *core.Ctx, k c15Case) {
 			c.Res.Discarded++
 			continue
 		}
+		c15Reported[f.key] = true
 		if f.disagree {
 			c.Disagree(f.key, f.what, k)
 		} else {
@@ -1293,6 +1317,15 @@ func init() {
 			}
 			for i := 0; i < ncl; i++ {
 				cases = append(cases, c15Case{Kind: "closers", Seed: c.Rand.Int63(), UDP: i%2 == 0, End: []string{"c", "s"}[c.Rand.Intn(2)], Closers: 2 + c.Rand.Intn(7), Sessions: 1})
+			}
+			if !race {
+				for i, na := 0, c.N(4, 24); i < na; i++ {
+					k := c15Case{Kind: "api", Seed: c.Rand.Int63(), UDP: i%2 == 1, Multiplex: c.Rand.Intn(2), Sessions: 1, ServerFirst: c.Rand.Intn(2) == 0, TrafficMs: 50 + c.Rand.Intn(400)}
+					if c.Thorough() && i%6 == 0 {
+						k.Ender = "slowloris"
+					}
+					cases = append(cases, k)
+				}
 			}
 			c.Sample(cases[0])
 			c.Sample(cases[nd])
